@@ -95,6 +95,7 @@ type phase struct {
 	ident      int  // identity whose history the phase builds
 	panicsOnly bool // REST sustained phase: every handler panics
 	variant    int  // sustained phase: the one failure kind of the phase
+	outage     bool // sqlx sustained phase: the failure kind is "the database is unreachable"
 }
 
 var runCounter int
